@@ -290,7 +290,8 @@ def layoutParse (env : Env) (ls : Nat) (ctx : Ctx) (fuel : Nat) : Ctx × Outcome
   parseWith env (nextTokenBase env true) ls { ctx with state := ls } fuel
 
 /-- `next_token` of the main parser (parser.rs:199-295): lex; if nothing matches run the layout
-    parser once and lex again (`layout_parsing` flag); otherwise partial-parse STOP or error -/
+    parser once and lex again (`layout_parsing` flag); otherwise partial-parse STOP or error.
+    State and span of the context are restored after the layout parse (position and layout stay). -/
 def nextTokenMain (env : Env) (partialParse : Bool) (fuel : Nat) (ctx : Ctx) : Ctx × Outcome Tok :=
   let (ctx, toks) := lexNext env ctx (env.t.sorted ctx.state)
   match pickToken env.longest toks with
@@ -300,8 +301,9 @@ def nextTokenMain (env : Env) (partialParse : Bool) (fuel : Nat) (ctx : Ctx) : C
     | none => noToken env partialParse ctx
     | some ls =>
       let cur := ctx.state
+      let sp := ctx.span      -- the layout parser shifts through this context: keep the content span
       let (ctx, r) := layoutParse env ls ctx fuel
-      let ctx := { ctx with state := cur }
+      let ctx := { ctx with state := cur, span := sp }
       match r with
       | .ok pr =>
         match pr.slice with
